@@ -135,4 +135,4 @@ def c13_known_class(case, observed, expected):
 
 
 def c13_apia_dateutil(case, observed, expected):
-    return case.get("tzid") == "Pacific/Apia" and case.get("provider") == "zoneinfo" and case.get("exc") == "ValueError"
+    return case.get("tzid") == "Pacific/Apia" and case.get("exc") == "ValueError"
